@@ -19,29 +19,31 @@ import (
 )
 
 type Params struct {
-	Idem       bool
-	RetryMax   int
-	NMsgs      int
-	Parts      []int32 // partition of message i (manual partitioner); len == NMsgs
-	NParts     int
-	NBrokers   int // partition p is led by broker 1+(p % NBrokers)
-	FlushMsgs  int
-	FlushFreq  time.Duration
-	FlushMax   int // Producer.Flush.MaxMessages
-	Backoff    time.Duration
-	Policy     string // drain | input
-	Version    sarama.KafkaVersion
-	Faults     []string
-	MetaFaults []string
-	Gates      map[string]bool // gate sites that are decision points
-	CloseAny   bool            // AsyncClose enabled at every decision point after the first submit
-	LastAfter  bool            // the last message is submitted only after the first outcome event
-	Icpt       int             // number of interceptors (counting + header-appending)
-	IcptPanic  int             // >0: the interceptor at this (1-based) position of the chain panics after doing its work
-	Acks       sarama.RequiredAcks
-	Sync       int // 0 async producer, 1 SyncProducer.SendMessage per message, 2 one SendMessages call
-	Codec      sarama.CompressionCodec
-	KV         bool // keys and headers on some messages (see KeyOf / HeadersOf)
+	Idem            bool
+	RetryMax        int
+	NMsgs           int
+	Parts           []int32 // partition of message i (manual partitioner); len == NMsgs
+	NParts          int
+	NBrokers        int // partition p is led by broker 1+(p % NBrokers)
+	FlushMsgs       int
+	FlushFreq       time.Duration
+	FlushMax        int // Producer.Flush.MaxMessages
+	Backoff         time.Duration
+	Policy          string // drain | input
+	Version         sarama.KafkaVersion
+	Faults          []string
+	MetaFaults      []string
+	Gates           map[string]bool // gate sites that are decision points
+	CloseAny        bool            // AsyncClose enabled at every decision point after the first submit
+	LastAfter       bool            // the last message is submitted only after the first outcome event
+	Icpt            int             // number of interceptors (counting + header-appending)
+	IcptPanic       int             // >0: the interceptor at this (1-based) position of the chain panics after doing its work
+	Election        bool            // partition 0 goes through a leader election (env:leader-down / env:leader-up)
+	ElectionAtStart bool            // election=2: partition 0 is leaderless from the start (the client's first metadata says so)
+	Acks            sarama.RequiredAcks
+	Sync            int // 0 async producer, 1 SyncProducer.SendMessage per message, 2 one SendMessages call
+	Codec           sarama.CompressionCodec
+	KV              bool // keys and headers on some messages (see KeyOf / HeadersOf)
 }
 
 func atoi(v url.Values, k string, def int) int {
@@ -60,7 +62,7 @@ func Parse(v url.Values) (*Params, error) {
 		Idem: atoi(v, "idem", 0) == 1, RetryMax: atoi(v, "rm", 1), NMsgs: atoi(v, "nm", 2), NParts: atoi(v, "np", 1),
 		NBrokers: atoi(v, "nb", 1), FlushMsgs: atoi(v, "fm", 0), FlushMax: atoi(v, "fx", 0), FlushFreq: time.Duration(atoi(v, "ff", 0)) * time.Millisecond,
 		Backoff: time.Duration(atoi(v, "bo", 0)) * time.Millisecond, Policy: v.Get("policy"), CloseAny: atoi(v, "closeany", 0) == 1,
-		LastAfter: atoi(v, "lastafter", 0) == 1, Icpt: atoi(v, "icpt", 0), IcptPanic: atoi(v, "icptpanic", 0),
+		LastAfter: atoi(v, "lastafter", 0) == 1, Election: atoi(v, "election", 0) >= 1, ElectionAtStart: atoi(v, "election", 0) == 2, Icpt: atoi(v, "icpt", 0), IcptPanic: atoi(v, "icptpanic", 0),
 		Acks: sarama.RequiredAcks(atoi(v, "acks", 1)), Sync: atoi(v, "sync", 0),
 	}
 	if p.Policy == "" {
@@ -166,6 +168,8 @@ type rig struct {
 	mu        sync.Mutex
 	events    []event
 	icptLog   []string
+	election  int // 0 not started, 1 partition 0 leaderless, 2 over
+	oldLeader int32
 	submitted int
 	accepted  int
 	closing   bool
@@ -195,6 +199,10 @@ func run(c *gx.Ctl, p *Params) *gx.Outcome {
 		leaders = append(leaders, int32(1+i%p.NBrokers))
 	}
 	cl.AddTopic("t", leaders...)
+	if p.ElectionAtStart {
+		r.election, r.oldLeader = 1, cl.Part("t", 0).Leader
+		cl.Part("t", 0).Leader = -1
+	}
 	cl.ProduceFaults = p.Faults
 	cl.MetaFaults = p.MetaFaults
 	// the idempotent broker worker refreshes metadata synchronously in the middle of handling a
@@ -319,10 +327,22 @@ func (r *rig) actors() []gx.Actor {
 	var acts []gx.Actor
 	if r.submitted < p.NMsgs && r.accepted == r.submitted {
 		gated := p.LastAfter && r.submitted == p.NMsgs-1 && len(r.events) == 0
+		if p.LastAfter && p.Election && r.submitted == p.NMsgs-1 {
+			// with an election in the scenario the last message comes after it is over ("later, ordinary traffic")
+			gated = r.election != 2
+		}
 		if !gated {
 			rank := 2
 			if p.Policy == "input" {
 				rank = -1
+			}
+			if p.Policy == "window" {
+				// fresh input lands inside an open retry window (a fin chaser is on its way back) by default
+				for _, l := range r.c.Parked() {
+					if strings.HasPrefix(l, "pp.fin(") {
+						rank = -1
+					}
+				}
 			}
 			i := r.submitted
 			acts = append(acts, gx.Actor{Label: "submit:" + msgID(i), Rank: rank, Variants: []gx.Variant{{Do: func() {
@@ -399,6 +419,27 @@ func (r *rig) actors() []gx.Actor {
 						}()
 					}
 				}
+			}}}})
+		}
+	}
+	if p.Election && !r.closing {
+		// a leader election on partition 0: the partition is leaderless from "down" until "up" (every metadata
+		// answer in between says so - one environment state instead of one fault per answer)
+		part := r.cl.Part("t", 0)
+		switch r.election {
+		case 0:
+			acts = append(acts, gx.Actor{Label: "env:leader-down", Rank: 3, Variants: []gx.Variant{{Do: func() {
+				r.mu.Lock()
+				r.election, r.oldLeader = 1, part.Leader
+				r.mu.Unlock()
+				part.Leader = -1
+			}}}})
+		case 1:
+			acts = append(acts, gx.Actor{Label: "env:leader-up", Rank: 5, Last: true, Variants: []gx.Variant{{Do: func() {
+				r.mu.Lock()
+				r.election = 2
+				r.mu.Unlock()
+				part.Leader = r.oldLeader
 			}}}})
 		}
 	}
